@@ -165,8 +165,10 @@ def run(chk):
     for (sid, secret, key), m in zip(cases, model):
         chk.count('hash', [sid, secret.hex(), key.hex()], True)
         m = res_decode(m, lambda r: ''.join(map(chr, r)))
+        # the secret and the key are bytes-like: bytes, bytearray and memoryview hash alike
+        shape_s, shape_k = rng.choice([bytes, bytes, bytearray, memoryview]), rng.choice([bytes, bytes, bytearray, memoryview])
         try:
-            got = ['ok', encryption.generate_verification_hash(sid, secret, key)]
+            got = ['ok', encryption.generate_verification_hash(sid, shape_s(secret), shape_k(key))]
         except Exception as e:
             got = ['err', exn_name(e)]
         exp = list(m)
